@@ -1,0 +1,15 @@
+//go:build verif
+
+// Contracts for package ecdsasigner, checked by /verif (govc). Comment-only file.
+package ecdsasigner
+
+// The node's in-memory guardian key: a signature is whatever go-ethereum's Sign returns for
+// this digest and key, handed out as it is - the signer keeps no state between calls (the
+// processor stores the returned slice in its aggregation state without copying it, so a
+// signer that reused a buffer would overwrite signatures recorded for earlier digests).
+//@ func (k *ECDSAPrivateKey) Sign(digestHash []byte) (sig []byte, err error)
+//@   props C01 C06
+//@   requires k != nil
+//@   calls-only github.com/ethereum/go-ethereum/crypto: Sign
+//@   modifies nothing
+//@   at [return crypto.Sign(digestHash, k.Value)]: assert [signs-the-given-digest-with-the-node-key] true
